@@ -35,13 +35,13 @@ INF = 10**12
 # RuntimeError), marks the server closed and returns, while the server goes on to come up with its listeners open.
 # With the flag on, the standalone generator keeps service_init instantaneous (so the window is a few loop iterations) and
 # the oracle skips exactly that shape, counting it, so that the search continues past it.
-EXCLUDE_S1 = os.environ.get("VERIF_C18_INCLUDE_S1") != "1"
+EXCLUDE_S1 = os.environ.get("VERIF_C18_EXCLUDE_S1") == "1"  # S1 is repaired in /repo: the shape is searched again
 
 # Finding S2 (C18-local label) (reported, transient): the standalone server_close() racing with a shutdown() in progress returns before the
 # listener sockets are closed (the portal refuses the call with RuntimeError, which is swallowed; the serving thread closes
 # the listeners moments later).  With the flag on, a listener that is open when server_close() returns but closed within a
 # 2 s grace period while a serve_forever() that had been up is unwinding is counted, not reported.
-EXCLUDE_S2 = os.environ.get("VERIF_C18_INCLUDE_S2") != "1"
+EXCLUDE_S2 = os.environ.get("VERIF_C18_EXCLUDE_S2") == "1"  # S2 is repaired in /repo: the shape is searched again
 
 LIFECYCLE = ("serve", "shutdown", "close", "activate")
 REFUSALS = ("ServerAlreadyRunning", "ServerClosedError", "BusyResourceError")
